@@ -106,6 +106,14 @@ def shape_table(max_ext):
     return out, n_accept
 
 
+def with_odd_unknowns(triples):
+    """(pos, value) pairs of an enumerated option + unknown values of other shapes: falsy ones are not "no value", names are case-sensitive."""
+    valid = [v for p_, v in triples if p_.startswith('valid') and isinstance(v, str)]
+    name = valid[0] if valid else 'x'
+    return tuple(triples) + (('unknown_empty', ''), ('unknown_zero', 0), ('unknown_false', False), ('unknown_capitalised', name.capitalize() + ('' if name.capitalize() != name else '_')),
+                             ('unknown_bytes', name.encode()))
+
+
 def param_probes():
     from bycycle.features import (compute_features, compute_shape_features, compute_cyclepoints, compute_burst_features)
     from bycycle.features.burst import (compute_burst_fraction, compute_amp_consistency, compute_period_consistency)
@@ -167,22 +175,22 @@ def param_probes():
         add('amp_threshes', 'amp_threshes', 'compute_burst_fraction', pos, lambda v=v: compute_burst_fraction(df_s, sig, fs, fr, amp_threshes=v))
         add('amp_threshes', 'amp_threshes', 'compute_features', pos,
             lambda v=v: compute_features(sig, fs, fr, burst_method='amp', threshold_kwargs={'burst_fraction_threshold': .5, 'min_n_cycles': 2}, burst_kwargs={'amp_threshes': v}))
-    for pos, v in (('valid1', 'peak'), ('valid2', 'trough'), ('unknown', 'middle')):
+    for pos, v in with_odd_unknowns((('valid1', 'peak'), ('valid2', 'trough'), ('unknown', 'middle'))):
         add('option', 'center_extrema', 'compute_features', pos, lambda v=v: compute_features(sig, fs, fr, center_extrema=v, threshold_kwargs=dict(thr)))
         add('option', 'center_extrema', 'compute_shape_features', pos, lambda v=v: compute_shape_features(sig, fs, fr, center_extrema=v))
         add('option', 'center_extrema', 'Bycycle.fit', pos, lambda v=v: Bycycle(center_extrema=v, thresholds=dict(thr)).fit(sig, fs, fr))
-    for pos, v in (('valid1', 'cycles'), ('valid2', 'amp'), ('unknown', 'foo')):
+    for pos, v in with_odd_unknowns((('valid1', 'cycles'), ('valid2', 'amp'), ('unknown', 'foo'))):
         tk = lambda v: dict(thr) if v != 'amp' else {'burst_fraction_threshold': .5, 'min_n_cycles': 2}
         add('option', 'burst_method', 'compute_features', pos, lambda v=v: compute_features(sig, fs, fr, burst_method=v, threshold_kwargs=tk(v), burst_kwargs={}))
         add('option', 'burst_method', 'compute_burst_features', pos, lambda v=v: compute_burst_features(df_s, sig, burst_method=v, burst_kwargs={'fs': fs, 'f_range': fr}))
         add('option', 'burst_method', 'Bycycle.fit', pos, lambda v=v: Bycycle(burst_method=v, thresholds=tk(v), burst_kwargs={}).fit(sig, fs, fr))
-    for pos, v in (('valid1', 'peak'), ('valid2', 'trough'), ('unknown', 'both')):
+    for pos, v in with_odd_unknowns((('valid1', 'peak'), ('valid2', 'trough'), ('unknown', 'both'))):
         add('option', 'first_extrema', 'find_extrema', pos, lambda v=v: find_extrema(sig, fs, fr, first_extrema=v))
-    for pos, v in (('valid1', 'next'), ('valid2', 'last'), ('unknown', 'sideways')):
+    for pos, v in with_odd_unknowns((('valid1', 'next'), ('valid2', 'last'), ('unknown', 'sideways'))):
         add('option', 'direction', 'compute_amp_consistency', pos, lambda v=v: compute_amp_consistency(df_s, direction=v))
         add('option', 'direction', 'compute_period_consistency', pos, lambda v=v: compute_period_consistency(df_s, direction=v))
         add('option', 'direction', 'recompute_edge', pos, lambda v=v: recompute_edge(df_c.copy(), 2, v))
-    for pos, v in (('valid1', None), ('valid2', 'tqdm'), ('unknown', 'bar')):
+    for pos, v in with_odd_unknowns((('valid1', None), ('valid2', 'tqdm'), ('unknown', 'bar'))):
         add('option', 'progress', 'progress_bar', pos, lambda v=v: list(progress_bar(iter([1, 2]), v, 2)))
         add('option', 'progress', 'compute_features_2d', pos,
             lambda v=v: compute_features_2d(np.array([sig, sig[::-1]]), fs, fr, {'threshold_kwargs': dict(thr)}, n_jobs=1, progress=v))
